@@ -315,6 +315,62 @@ func c12Sequences(u *vfUnit) {
 		u.Violation("session-close", msg, nil)
 	}
 	c12CloseOnLostConnection(u, sc, cfgLabel, dir, store)
+	if kind == vfRS {
+		c12StreamLikeFiles(u, sc, cfgLabel, store, P, cr, fst)
+	}
+}
+
+// c12StreamLikeFiles: WriteTo on objects that are not regular files (a pipe, an object whose attributes
+// carry no file type at all) and whose reads come back short without being at the end: the transfer must
+// still deliver every byte and the offset must advance by exactly the bytes transferred.
+func c12StreamLikeFiles(u *vfUnit, sc vfSrvCfg, cfgLabel string, store *vfStore, P int, cr, fst bool) {
+	store.CloseErr = nil
+	size := 40*P + 5
+	for i, mode := range []os.FileMode{os.ModeNamedPipe | 0o644, os.ModeIrregular | 0o644, os.ModeCharDevice | os.ModeDevice | 0o600} {
+		p := fmt.Sprintf("/streamlike%d", i)
+		content := vfPattern(uint64(50+i), 0, size)
+		store.Put(p, content)
+		store.SetMode(p, mode)
+		store.ShortAt = func(path string, off int64, n int) int {
+			if path == p {
+				return max(1, P/2)
+			}
+			return 0
+		}
+		sess, err := vfConnect(sc, vfPipeOpts{}, MaxPacketUnchecked(P), UseConcurrentReads(cr), UseFstat(fst))
+		if err != nil {
+			u.Inconclusive("connect: %v", err)
+			return
+		}
+		label := fmt.Sprintf("%s/stream-like(%v)", cfgLabel, mode)
+		f, err := sess.C.Open(p)
+		if err != nil {
+			u.Violation("open-failed", label+": "+err.Error(), nil)
+			sess.Close()
+			continue
+		}
+		f.Seek(10, io.SeekStart)
+		var buf bytes.Buffer
+		var n int64
+		var werr error
+		if w, dump := vfAwait(vfGo(func() { n, werr = f.WriteTo(&buf) }), 120*time.Second); w != vfDone {
+			if w == vfStuck {
+				u.Violation("call-hangs:WriteTo", label+": WriteTo does not return\n"+vfTrim(dump, 2000), nil)
+			} else {
+				u.Inconclusive("%s: wall-clock cap", label)
+			}
+			return
+		}
+		off, _ := f.Seek(0, io.SeekCurrent)
+		u.Count("calls_stepped", 1)
+		u.Count("stream_like_transfers", 1)
+		if werr != nil || n != int64(size-10) || !bytes.Equal(buf.Bytes(), content[10:]) || off != 10+n {
+			u.Violation("offset-after:WriteTo-stream-like", fmt.Sprintf("%s: WriteTo from offset 10 of a %d-byte object answered in short reads returned (%d, %v), delivered %d bytes (first difference at %d), File offset afterwards %d", label, size, n, werr, buf.Len(), vfFirstDiff(buf.Bytes(), content[10:]), off), nil)
+		}
+		f.Close()
+		sess.Close()
+	}
+	store.ShortAt = nil
 }
 
 // c12CloseOnLostConnection: Close on a File whose connection is already gone reports the loss,
